@@ -23,3 +23,31 @@ Proof. vm_compute. reflexivity. Qed.
 Example C12_ex_display :
   read_display (display (fun _ => [48%N]) (fun _ => []) false (Fraction 2 1 2 0)) = Some (2 + 1 / 2).
 Proof. vm_compute. reflexivity. Qed.
+
+(* approximating again (Number::try_approx on a stored fraction, theorems C12_try_approx_exact etc. of Properties/C12.v):
+   0.26 is stored as 1/4 with error 1/100 and stays that through a second call with the same limits, a
+   declined call (accuracy 0.1 %, no whole part allowed) and a call with other limits (1/2 - 0.24);
+   "2" with error 0.08 stays, then becomes 2 1/16 + 0.0175.  Errors are shown as the model computes them,
+   not reduced. *)
+Example C12_ex_try_again :
+  try_approx_seq cfgF (Regular (26 # 100))
+    [(Fin (5 # 100), 4%N, 4294967295%N); (Fin (5 # 100), 4%N, 4294967295%N); (Fin (1 # 1000), 16%N, 0%N); (Fin 1, 2%N, 5%N)]
+  = Done [(Fraction 0 1 4 (4 # 400), true); (Fraction 0 1 4 (64 # 6400), true);
+          (Fraction 0 1 4 (64 # 6400), false); (Fraction 0 1 2 (-12288 # 51200), true)].
+Proof. vm_compute. reflexivity. Qed.
+Example C12_ex_try_again_rounded :
+  try_approx_seq cfgF (Fraction 2 0 1 (8 # 100)) [(Fin (5 # 100), 4%N, 4294967295%N); (Fin (1 # 100), 16%N, 4294967295%N)]
+  = Done [(Fraction 2 0 1 (8 # 100), true); (Fraction 2 1 16 (28 # 1600), true)].
+Proof. vm_compute. reflexivity. Qed.
+(* a units-file layer with accuracy 2 and max_denominator 200 is clamped to 1 and 16; try_fraction on a
+   range stops at the first end that could be approximated *)
+Example C12_ex_define :
+  define {| fh_enabled := Some true; fh_accuracy := Some (Fin 2); fh_max_den := Some 200%N; fh_max_whole := None |}
+  = {| fc_enabled := true; fc_accuracy := Fin 1; fc_max_den := 16; fc_max_whole := 4294967295 |}.
+Proof. vm_compute. reflexivity. Qed.
+Example C12_ex_try_fraction_range :
+  try_fraction cfgF
+    (define {| fh_enabled := Some true; fh_accuracy := Some (Fin 2); fh_max_den := Some 200%N; fh_max_whole := None |})
+    (VRange (Fraction 0 1 4 (1 # 100)) (Regular (3 # 2)))
+  = Done (VRange (Fraction 0 1 4 (16 # 1600)) (Regular (3 # 2)), true).
+Proof. vm_compute. reflexivity. Qed.
